@@ -378,3 +378,45 @@ package util
 //@   ensures 0 <= i && i <= len(a)
 //@   ensures (forall j int, k int :: 0 <= j && j < k && k < len(a) ==> a[j] <= a[k]) ==> (forall j int :: 0 <= j && j < i ==> a[j] < x) && (forall j int :: i <= j && j < len(a) ==> a[j] >= x)
 //@   trusted "sort.SearchInts: binary search on an ascending slice"
+
+// ---- the file primitives themselves (impl contracts: checked against the bodies, never used at call sites) ----
+// Callers see ReadIntFromFile / WriteIntToFile through the idealised I/O model above (opaque). The impl contracts
+// pin down what the bodies do with the os / strconv layer, so that a change inside them is noticed: a read
+// succeeds only with the integer the trimmed content denotes, a write issues exactly one os.WriteFile of the
+// decimal text of the value to the path or its symlink resolution.
+//@ ghost var fileContent gmap[string]string
+//@ ghost var fileWrites int
+//@ ghost var lastWritePath string
+//@ ghost var lastWriteText string
+//@ ghost var rdText string
+//@ extern func os.ReadFile(name string) (data []byte, err error)
+//@   effectfree
+//@   ensures err == nil ==> strof(data) == fileContent[name]
+//@   trusted "os.ReadFile returns the content of the file or an error"
+//@ extern func os.WriteFile(name string, data []byte, perm os.FileMode) (err error)
+//@   ensures fileWrites == old(fileWrites) + 1 && lastWritePath == name && lastWriteText == strof(data)
+//@   ensures err == nil ==> fileContent == old(fileContent)[name := strof(data)]
+//@   ensures err != nil ==> forall p string :: p != name ==> fileContent[p] == old(fileContent)[p]
+//@   modifies fileContent, fileWrites, lastWritePath, lastWriteText
+//@   trusted "os.WriteFile replaces the content of exactly that file (a failed write may leave it damaged)"
+//@ extern func strings.TrimSpace(s string) (r string)
+//@   effectfree
+//@   ensures r == trimsp(s)
+//@   trusted "pure string function"
+//@ extern func strconv.Atoi(s string) (i int, err error)
+//@   effectfree
+//@   ensures err == nil ==> i == atoi(s)
+//@   trusted "strconv.Atoi returns the integer the decimal text denotes, or an error"
+
+//@ impl func ReadIntFromFile
+//@   props C08 C05 C09
+//@   atcall ghost Atoi: rdText := s
+//@   ensures[C08.impl.read] err == nil ==> rdText == trimsp(fileContent[path]) && value == atoi(rdText)
+//@   modifies rdText
+
+//@ impl func WriteIntToFile
+//@   props C05 C03 C09
+//@   ensures[C05.impl.once] fileWrites == old(fileWrites) + 1
+//@   ensures[C05.impl.what] lastWriteText == itoa(value) && (lastWritePath == path || (path in resolveOK && lastWritePath == resolvedPath[path]))
+//@   ensures[C05.impl.err] result == nil ==> fileContent[lastWritePath] == itoa(value)
+//@   modifies fileContent, fileWrites, lastWritePath, lastWriteText
